@@ -90,7 +90,12 @@ func (r *Relay) Addr(kind, server string, index int, timeout time.Duration) (net
 }
 
 func (r *Relay) LogTail(n int) string {
-	all := r.Logs.All()
+	var all []observer.LoggedEntry
+	for _, e := range r.Logs.All() {
+		if e.Message != "Handled API request" { // the harness' own polling
+			all = append(all, e)
+		}
+	}
 	if len(all) > n {
 		all = all[len(all)-n:]
 	}
